@@ -18,6 +18,15 @@ between calls, covariance propagation, rank normalisation) is evaluated by Coq:
 Independently of the Coq model, every scenario is also checked against the property's own statement:
 a sequential 50-digit mpmath recursion written from the property text (rot / vel / pos), one call vs
 consecutive chunks with reset=False, rank equivalence (H) / (F,H) / (B,F,H), covariance symmetric PSD.
+
+Call forms, histories, purity (strengthening): the optional arguments of forward (init_state, gyro_cov, acc_cov, rot positional /
+keyword) are exercised with the constructor holding OTHER values; by the documented equivalence 'if not given, the value in the
+constructor will be used' such scenarios reach the model as their constructor-form twin (model_view), the rest (init_state in the
+middle of a history, one state per IMU, reset=True objects fed other batch sizes) is judged by the mpmath recursion.  Argument
+tensors rotate through memory layouts (fresh / views of one stream tensor / transposed / strided / expanded) and every tensor given
+to the constructor or a call - and the base of every view - is compared bit for bit after each call (mutation:...).  Further
+oracles on the implementation: no raise on documented input, the same tensors fed again (and modified in place by the caller, then
+fed again), batch item vs single IMU, call form vs constructor form, hand-over of the reached state to a second object.
 """
 import math
 from ..common import *
@@ -27,7 +36,9 @@ RULE = ('a scenario = one module object + a list of calls (chunks of one stream)
         'rotations, dyadic data, dt = 2^-k: float64 == model over Q (tolerance 0 for rot/vel/pos); tolerance route: '
         'generic float inputs, model evaluated by Coq in 256-bit fixed point on the implementation\'s own increments, '
         '|model-impl| <= (32+4 N) eps scale (N = frames since construction); every scenario also checked against a '
-        'sequential mpmath recursion written from the property text, chunked-vs-single, rank equivalence, cov symmetric PSD; '
+        'sequential mpmath recursion written from the property text, chunked-vs-single, rank equivalence, cov symmetric PSD, '
+        'argument tensors unchanged bit for bit, same tensors fed again, batch item = single IMU, call-form = constructor-form '
+        '(init_state / gyro_cov / acc_cov), state hand-over through init_state; memory layouts rotate; '
         'a scenario is non-trivial when it has >= 2 frames; distinct = distinct (route, dtype, B, chunking, flags, data hash)')
 EPS = {'float64': 2.0 ** -52, 'float32': 2.0 ** -23}
 KEY_COV = 'IMUPreintegrator.forward:cov:one-call-vs-chunks:F>=3'
@@ -391,15 +402,19 @@ def run_impl(pp, torch, sc, layout=None):
             inc = pp.identity_SO3(g3.shape[0], g3.shape[1], dtype=dtype)
         jr = inc.Jr()
         out = None
+        held = None
         try:
             pos, kw = args.call(ci)
             watch.snap()
+            held = dict(kw['init_state']) if 'init_state' in kw else None
             o = do_call(m, pos, kw, positional_rot=(ci % 2 == 0))
         except Exception as e:  # the call raised: the model must say None
             o = None
             res.setdefault('errs', []).append('call %d: %r' % (ci, e))
             res['errs'][-1] = res['errs'][-1][:240]
         d = watch.diff() if len(watch.snaps) == len(watch.items) else None
+        if d is None and held is not None and (set(held) != set(kw['init_state']) or any(kw['init_state'][k] is not held[k] for k in held)):
+            d = 'the caller\'s init_state dict was modified: keys %s -> %s' % (sorted(held), sorted(kw['init_state']))
         if d and 'mutated' not in res:
             res['mutated'] = 'call %d (%s): %s' % (ci, 'raised' if o is None else 'returned', d)
         if o is not None:
